@@ -3,10 +3,12 @@ while Update is in flight, WaitUntilReconciled probes, pruning; every script end
 import random
 
 
-def config(rng, idle=False):
+def config(rng, idle=False, refresh=None):
+    if refresh is None:
+        refresh = 0 if idle or rng.random() < 0.8 else rng.choice([150, 400, 1000])
     return dict(op="config", round=rng.choice([1, 2, 3, 1000, 1000]), batch=rng.random() < 0.35,
                 minb=rng.choice([50, 100]), maxb=rng.choice([200, 800, 3200]), limit_ms=rng.choice([1, 1, 5]),
-                prune_ms=rng.choice([0, 0, 700]), idle=idle,
+                prune_ms=rng.choice([0, 0, 700]), idle=idle, refresh_ms=refresh,
                 # objects carry a reconciler.StatusSet (several reconcilers per object) instead of a single Status
                 statusset=rng.random() < 0.4)
 
@@ -147,7 +149,7 @@ def gen_retrywindow(rng):
 def gen_lowwatermark(rng):
     """Several objects failing at the same time, WaitUntilReconciled probes at idle moments between their
     retries: the reported low watermark must be the oldest failed change."""
-    cfg = config(rng)
+    cfg = config(rng, refresh=0)
     cfg["round"] = rng.choice([1, 1000])
     cfg["prune_ms"] = 0
     cfg["maxb"] = rng.choice([800, 3200])
@@ -170,7 +172,41 @@ def gen_lowwatermark(rng):
     return finish(ops, cfg, outstanding)
 
 
+def gen_refresh(rng):
+    """Refresh loop enabled: objects that have been Done for the refresh interval are marked Refreshing and updated
+    again; failures of such updates, user writes and status-only writes while they are in flight, deletions, and
+    sleeps spanning several intervals."""
+    cfg = config(rng, refresh=rng.choice([120, 300, 700]))
+    cfg["prune_ms"] = rng.choice([0, 0, 500])
+    ops = [cfg]
+    K = rng.randint(1, 4)
+    outstanding = 0
+    for k in range(1, K + 1):
+        ops.append(dict(op="user", kind="upsert", k=k))
+    if rng.random() < 0.7:
+        ops.append(dict(op="initdone"))
+    for _ in range(rng.randint(3, 10)):
+        r = rng.random()
+        k = rng.randint(1, K)
+        if r < 0.35:
+            ops.append(dict(op="sleep", ms=rng.choice([cfg["refresh_ms"] // 2, cfg["refresh_ms"] + 3, cfg["refresh_ms"] * 2 + 7, 5])))
+        elif r < 0.5 and outstanding < 5:
+            n = rng.randint(1, 2)
+            outstanding += n
+            ops.append(dict(op="fail", k=k, n=n, on="update"))
+        elif r < 0.7:
+            ops.append(dict(op="inject", k=k, on="update", nth=rng.randint(1, 3),
+                            do=rng.choice(["upsert", "delete", "reinsert", "status2", "status2"])))
+        elif r < 0.8:
+            ops.append(dict(op="user", kind=rng.choice(["upsert", "delete", "reinsert", "status2"]), k=k))
+        elif r < 0.9:
+            ops.append(dict(op="wait", back=rng.randint(0, 2), q=False))
+        else:
+            ops.append(dict(op="prune"))
+    return finish(ops, cfg, outstanding)
+
+
 def generate(kind, n, seed):
     rng = random.Random(seed)
-    fn = {"lowwatermark": gen_lowwatermark, "general": gen_general, "backoff": gen_backoff, "inflight": gen_inflight, "retrywindow": gen_retrywindow}[kind]
+    fn = {"refresh": gen_refresh, "lowwatermark": gen_lowwatermark, "general": gen_general, "backoff": gen_backoff, "inflight": gen_inflight, "retrywindow": gen_retrywindow}[kind]
     return [fn(rng) for _ in range(n)]
